@@ -123,6 +123,31 @@ impl<'a> Iterator for Lines<'a> {
     }
 }
 
+/// Verification hooks (only with `--cfg sourcemap_verif`): `SourceView::get_line`
+/// calls `yield_point` at the places where another thread could run between its
+/// steps, so that a checker can schedule other calls there.  No-ops by default.
+#[cfg(sourcemap_verif)]
+pub mod verif_hooks {
+    use super::SourceView;
+
+    static mut CALLBACK: Option<fn(&SourceView, u8)> = None;
+
+    /// Installs (or removes) the callback run at every yield point.
+    ///
+    /// # Safety
+    /// Must not be called while another thread may be inside `yield_point`.
+    pub unsafe fn set_callback(cb: Option<fn(&SourceView, u8)>) {
+        CALLBACK = cb;
+    }
+
+    #[inline]
+    pub(super) fn yield_point(sv: &SourceView, point: u8) {
+        if let Some(cb) = unsafe { CALLBACK } {
+            cb(sv, point);
+        }
+    }
+}
+
 /// Provides efficient access to minified sources.
 ///
 /// This type is used to implement fairly efficient source mapping
@@ -179,11 +204,15 @@ impl SourceView {
                 return Some(lines[idx]);
             }
         }
+        #[cfg(sourcemap_verif)]
+        verif_hooks::yield_point(self, 1);
 
         // fetched everything
         if self.processed_until.load(Ordering::Relaxed) > self.source.len() {
             return None;
         }
+        #[cfg(sourcemap_verif)]
+        verif_hooks::yield_point(self, 2);
 
         let mut lines = self.lines.lock().unwrap();
         let mut done = false;
